@@ -20,9 +20,9 @@ pub fn file_noschema<T: Fam, S: Src>(s: &mut S) {
     let mut exp = ref_header(2, T::VERSION, false);
     v.renc(T::VERSION, &mut exp);
     assert!(buf == exp, "C02: header (magic, lib version, data version, flag) ++ payload");
-    let mut rd = ChunkReader::new(&buf);
+    let mut rd: &[u8] = &buf[..];
     match savefile::load_noschema::<T>(&mut rd, T::VERSION) {
-        Ok(b) => { assert!(same(&b, &v, T::VERSION), "C01"); assert!(rd.pos == buf.len(), "C01: consumes exactly what save produced"); }
+        Ok(b) => { assert!(same(&b, &v, T::VERSION), "C01"); assert!(rd.is_empty(), "C01: consumes exactly what save produced"); }
         Err(_) => assert!(false, "C01: load of a saved file must succeed"),
     }
 }
@@ -36,10 +36,10 @@ pub fn hdr_magic<S: Src>(s: &mut S) {
     let mut file = ref_header(2, 0, false);
     file[i] = b;
     file.extend_from_slice(&payload.to_le_bytes());
-    let mut rd = ChunkReader::new(&file);
+    let mut rd: &[u8] = &file[..];
     let r = savefile::load_noschema::<u32>(&mut rd, 0);
     assert!(r.is_err(), "C05: wrong magic is rejected");
-    assert!(rd.pos <= 16, "C05: rejected before any payload is interpreted");
+    assert!(file.len() - rd.len() <= 16, "C05: rejected before any payload is interpreted");
 }
 
 /// C05: library-format version and data version gates; otherwise payload read at the FILE's version.
@@ -54,16 +54,16 @@ pub fn hdr_versions<S: Src>(s: &mut S) {
     file.extend_from_slice(&dataver.to_le_bytes());
     file.push(flag);
     file.extend_from_slice(&payload.to_le_bytes());
-    let mut rd = ChunkReader::new(&file);
+    let mut rd: &[u8] = &file[..];
     let r = savefile::load_noschema::<u32>(&mut rd, progver);
     if libver > 2 {
         assert!(r.is_err(), "C05: newer library format version is rejected");
-        assert!(rd.pos <= 16, "C05: before any payload is interpreted");
+        assert!(file.len() - rd.len() <= 16, "C05: before any payload is interpreted");
     } else if dataver > progver {
         assert!(matches!(r, Err(SavefileError::WrongVersion { .. })), "C05: data version newer than the program's is rejected");
-        assert!(rd.pos <= 16, "C05: before any payload is interpreted");
+        assert!(file.len() - rd.len() <= 16, "C05: before any payload is interpreted");
     } else if flag == 0 {
-        match r { Ok(v) => { assert!(v == payload); assert!(rd.pos == file.len()); } Err(_) => assert!(false, "C05: valid header must load") }
+        match r { Ok(v) => { assert!(v == payload); assert!(rd.is_empty()); } Err(_) => assert!(false, "C05: valid header must load") }
     } else {
         // compressed payload: this build has no bzip2; must be an error, never a value or a panic
         assert!(r.is_err());
@@ -77,7 +77,7 @@ pub fn truncate_noschema<T: Fam, S: Src>(s: &mut S) {
     let r = savefile::save_noschema(&mut buf, T::VERSION, &v);
     assert!(r.is_ok());
     let k = s.below(buf.len());
-    let mut rd = ChunkReader::new(&buf[..k]);
+    let mut rd: &[u8] = &buf[..k];
     let r = savefile::load_noschema::<T>(&mut rd, T::VERSION);
     match r {
         Err(_) => {}
@@ -95,7 +95,7 @@ pub fn fault_write<T: Fam, S: Src>(s: &mut S) {
     let mut w = FaultWriter::new();
     w.fail_at = s.usize();
     w.chunk = s.usize();
-    s.assume(w.chunk >= 1);
+    s.assume(w.chunk >= 1 && (w.chunk <= 3 || w.chunk == usize::MAX));
     w.flush_fails = s.bool();
     w.kind = if s.bool() { ErrorKind::Other } else { ErrorKind::BrokenPipe };
     let r = savefile::save_noschema(&mut w, T::VERSION, &v);
@@ -113,8 +113,9 @@ pub fn chunk_read<T: Fam, S: Src>(s: &mut S) {
     assert!(savefile::save_noschema(&mut good, T::VERSION, &v).is_ok());
     let mut rd = ChunkReader::new(&good);
     rd.chunk = s.usize();
-    s.assume(rd.chunk >= 1);
+    s.assume(rd.chunk >= 1 && (rd.chunk <= 3 || rd.chunk == usize::MAX));
     rd.interrupt_mask = s.u32();
+    s.assume(rd.interrupt_mask & 0xffff_ff00 == 0);
     match savefile::load_noschema::<T>(&mut rd, T::VERSION) {
         Ok(b) => { assert!(same(&b, &v, T::VERSION), "C08: result independent of chunking"); assert!(rd.pos == good.len()); }
         Err(_) => assert!(false, "C08: chunked / interrupted reads of intact data must load"),
@@ -127,11 +128,11 @@ pub fn malformed_fixed<T: Fam, S: Src, const N: usize>(s: &mut S) {
     let bytes: [u8; N] = s.bytes::<N>();
     let len = s.usize();
     s.assume(len <= N);
-    let mut rd = ChunkReader::new(&bytes[..len]);
+    let mut rd: &[u8] = &bytes[..len];
     let r = Deserializer::bare_deserialize::<T>(&mut rd, T::VERSION);
     if let Ok(v) = r {
         let back = ref_bytes(&v, T::VERSION);
-        assert!(rd.pos <= len);
-        assert!(back.len() == rd.pos && back[..] == bytes[..rd.pos], "C06: a returned value is a valid value of its type");
+        let used = len - rd.len();
+        assert!(back.len() == used && back[..] == bytes[..used], "C06: a returned value is a valid value of its type");
     }
 }
